@@ -1,5 +1,6 @@
 import BalmProofs.JudgeSpec
 import Balm.Impl.Diagram
+import Balm.Impl.Block
 import Balm.Full
 /-!
 # C04 – lazily built diagrams are always a faithful part of the full diagram
@@ -270,6 +271,56 @@ theorem expandMinimal_inv (c : Ctx n) (d : Diag n) (start : Nat) (sz : Option Na
     (h : StrictInv c d) : StrictInv c (expandMinimalWith c d start sz false allMins).1 :=
   minLoop_inv c sz allMins _ d _ _ _ h
 
+theorem blockLevel_inv (c : Ctx n) (sz : Option Nat) :
+    ∀ (cur : List Nat) (d : Diag n) (next : List Nat), StrictInv c d →
+      StrictInv c (blockLevel c sz cur d next).1 := by
+  intro cur
+  induction cur with
+  | nil => intro d next h; simpa [blockLevel] using h
+  | cons node rest ih =>
+    intro d next h
+    unfold blockLevel
+    split
+    · exact ih _ _ h
+    · split
+      · exact h
+      · have h' := expandNode_inv c d node h
+        cases hx : expandNode c d node with
+        | mk d' okk =>
+          rw [hx] at h'
+          simp only
+          split
+          · exact h'
+          · split
+            · exact ih _ _ h'
+            · exact ih _ _ h'
+            · exact ih _ _ h'
+
+theorem blockLoop_inv (c : Ctx n) (sz : Option Nat) :
+    ∀ (fuel : Nat) (d : Diag n) (cur : List Nat), StrictInv c d → StrictInv c (blockLoop c sz fuel d cur).1 := by
+  intro fuel
+  induction fuel with
+  | zero => intro d cur h; simpa [blockLoop] using h
+  | succ fuel ih =>
+    intro d cur h
+    unfold blockLoop
+    split
+    · exact h
+    · have h' := blockLevel_inv c sz (sortNat cur) d [] h
+      cases hx : blockLevel c sz (sortNat cur) d [] with
+      | mk d' r =>
+        obtain ⟨next, early⟩ := r
+        rw [hx] at h'
+        simp only
+        cases early with
+        | some o => exact h'
+        | none => exact ih _ _ h'
+
+/-- block expansion (no source shortcuts, no motif-avoidant check) preserves the strict invariant -/
+theorem expandBlock_inv (c : Ctx n) (d : Diag n) (sz : Option Nat) (h : StrictInv c d) :
+    StrictInv c (expandBlock c d sz).1 :=
+  blockLoop_inv c sz _ d _ h
+
 /-- the plain operations of the model -/
 inductive PlainOp (n : Nat) where
   | one (i : Nat)
@@ -277,6 +328,7 @@ inductive PlainOp (n : Nat) where
   | dfs (start : Nat) (st sz : Option Nat)
   | target (t : Space n) (sz : Option Nat)
   | minimal (start : Nat) (sz : Option Nat) (solverAnswer : List (Space n))
+  | block (sz : Option Nat)
 
 def runOp (c : Ctx n) (d : Diag n) : PlainOp n → Diag n
   | .one i => (expandNode c d i).1
@@ -284,10 +336,11 @@ def runOp (c : Ctx n) (d : Diag n) : PlainOp n → Diag n
   | .dfs s st sz => (expandDfs c d s st sz).1
   | .target t sz => (expandToTarget c d t sz).1
   | .minimal s sz ans => (expandMinimalWith c d s sz false ans).1
+  | .block sz => (expandBlock c d sz).1
 
 /-- **C04 for the executable model.** For every network, every stable-motif limit and every history
-    of plain operations – single-node expansion, BFS, DFS, target-directed and minimal-space
-    expansion with arbitrary start nodes, limits, targets and solver answers – the strict invariant
+    of plain operations – single-node expansion, BFS, DFS, target-directed, minimal-space and block
+    expansion (without source shortcuts) with arbitrary start nodes, limits, targets and solver answers – the strict invariant
     holds in the resulting diagram (hence at every moment of the history). -/
 theorem plain_history_inv (N : Net n) (L : Nat) (ops : List (PlainOp n)) :
     StrictInv (Ctx.mk' N L) (ops.foldl (runOp (Ctx.mk' N L)) (initDiag (Ctx.mk' N L))) := by
@@ -305,6 +358,7 @@ theorem plain_history_inv (N : Net n) (L : Nat) (ops : List (PlainOp n)) :
       | dfs s st sz => exact expandDfs_inv _ d s st sz h
       | target t sz => exact expandToTarget_inv _ d t sz h
       | minimal s sz ans => exact expandMinimal_inv _ d s sz ans h
+      | block sz => exact expandBlock_inv _ d sz h
   exact this ops _ (init_inv N L)
 
 end Balm.Props.C04
